@@ -2,6 +2,7 @@
 import json
 import os
 from . import common
+from . import tablegen as tg
 
 LEVEL_TEXT = ("Lean theorems Crng.Props.C18.isolation (every history of safe update idioms, every append capacity behaviour: a held snapshot keeps "
               "its view) and ops_refine_list (published list = fold of the list operations) over a model of Go slices on shared backing arrays. "
@@ -114,6 +115,83 @@ def monitor(lines, out):
     return None
 
 
+ADM_POOL = ["addrw old. new.", "addrw new. old.", "addrw .x .z", "delrw 0", "delroute r1", "delroute r2", "delroute r3", "addroute r4 new.", "addroute r5 old.",
+            "addroute r6 z", "addbl old.", "addbl new.", "addbl zzz", "delbl 0"]
+
+
+def inflight_cases(rnd, n):
+    """a Dispatch held in the middle of the pipeline while k admin operations change the table; the same line is also dispatched
+    synchronously against every complete table T0..Tk of that history (each rebuilt from scratch)"""
+    out = []
+    for i in range(n):
+        new = rnd.choice(["new", "new rw"])
+        line = tg.hx(("%s 1 1500000000" % rnd.choice(["old.x", "old.y", "new.x", "new.q", "old.a.x"])).encode())
+        ops = [rnd.choice(ADM_POOL) for _ in range(rnd.randint(2, 4))]
+        case = []
+        for k in range(len(ops) + 1):
+            case.append(new)
+            case += ["adm " + o for o in ops[:k]]
+            case.append("probe " + line)
+        case += [new, "fill", "ain " + line] + ["adm " + o for o in ops] + ["await"]
+        out.append(("f%d" % i, case))
+    return out
+
+
+def inflight_monitor(lines, out):
+    outs = [o for o in out if o.startswith("out ")]
+    if "ain held" not in out:
+        return "harness: the dispatch was not held (%s)" % [o for o in out if o.startswith(("ain", "newerr", "await"))]
+    if "await stuck" in out:
+        return "the held Dispatch never returned after the aggregator was let go"
+    if len(outs) < 2:
+        return "harness: no outcomes"
+    held, complete = outs[-1], outs[:-1]
+    if held not in complete:
+        return "a metric in flight during %d table changes was processed against a table that never existed: it did '%s'; against the complete tables of the history it does %s" % (
+            len(complete) - 1, held, sorted(set(complete)))
+    return None
+
+
+def ch_cases(rnd, n):
+    out = []
+    for i in range(n):
+        ids = ["d%d" % j for j in range(rnd.randint(2, 5))]
+        nxt = len(ids)
+        ops = ["new " + ",".join(ids)]
+        live = len(ids)
+        for _ in range(rnd.randint(3, 12)):
+            k = rnd.random()
+            if k < 0.3:
+                ops.append("snap")
+            elif k < 0.6:
+                ops.append("add d%d" % nxt)
+                nxt += 1
+                live += 1
+            elif k < 0.9:
+                ops.append("del %d" % rnd.randint(0, max(0, live)))
+                # (the harness reports whether it was accepted; the monitor does not need to know)
+            else:
+                ops.append("views")
+        ops.append("views")
+        out.append(("h%d" % i, ops))
+    return out
+
+
+def ch_monitor(lines, out):
+    """what a dispatcher sees through a config it holds (destinations, ring, choices) never changes after it was taken"""
+    held = {}
+    for o in out:
+        f = o.split(" ", 1)
+        if f[0].startswith("snap") and len(f) == 2:
+            if f[0] not in held:
+                held[f[0]] = f[1]
+            elif held[f[0]] != f[1]:
+                return "a consistentHashing config held by a dispatcher changed under it: %s was '%s', later reads '%s'" % (f[0], held[f[0]][:160], f[1][:160])
+        if "!oob" in o:
+            return "ring entry points outside the held destination list: " + o[:200]
+    return None
+
+
 def run(ctx):
     ctx.assumptions += ["schedules = interleavings of element reads through a held header with whole mutators (mutators are serialised by the mutex: regenerated fact)",
                         "aggregator list uses the same idioms (regenerated fact) but is not driven in the correspondence run (aggregator shutdown is asynchronous)",
@@ -124,3 +202,8 @@ def run(ctx):
     ctx.stream("table-ops", "tableops", cases(ctx.rng("c18"), ctx.scale(400, 8000), ctx.scale(30, 60)), monitor=monitor, spec_exact=True,
                removable=lambda l: not l.startswith(("idioms", "new", "views")),
                classify=lambda l, o: "snaps=%d" % sum(1 for x in l if x == "snap"))
+    ctx.stream("hashing-route-ops", "chops", ch_cases(ctx.rng("c18ch"), ctx.scale(60, 1200)), model=False, monitor=ch_monitor, shrink=True,
+               removable=lambda l: not l.startswith(("new", "views")),
+               classify=lambda l, o: "snaps=%d" % sum(1 for x in l if x == "snap"))
+    ctx.stream("in-flight", "midflight", inflight_cases(ctx.rng("c18f"), ctx.scale(40, 600)), model=False, monitor=inflight_monitor, shrink=False,
+               timeout=ctx.scale(600, 3000), classify=lambda l, o: "changes=%d" % (sum(1 for x in l if x.startswith("probe ")) - 1))
